@@ -487,7 +487,22 @@ func (g *gen) unit(i int) (string, UnitTruth) {
 		nu := rapid.IntRange(0, 4).Draw(t, "nUsedExtraImports")
 		for k := 0; k < nu; k++ {
 			nm := g.names.Class(t)
-			switch rapid.IntRange(0, 10).Draw(t, "usedImportKind") {
+			switch rapid.IntRange(0, 15).Draw(t, "usedImportKind") {
+			case 11: // instanceof
+				usage = append(usage, "boolean io"+fmt.Sprint(k)+" = (this instanceof "+nm+");")
+				imps = append(imps, impLine{text: "org.lib." + nm, verdict: "keep", why: "used in instanceof"})
+			case 12: // cast
+				usage = append(usage, "Object ca"+fmt.Sprint(k)+" = ("+nm+") null;")
+				imps = append(imps, impLine{text: "org.lib." + nm, verdict: "keep", why: "used in a cast"})
+			case 13: // class literal
+				usage = append(usage, "Object cl"+fmt.Sprint(k)+" = "+nm+".class;")
+				imps = append(imps, impLine{text: "org.lib." + nm, verdict: "keep", why: "used in a class literal"})
+			case 14: // array type
+				usage = append(usage, nm+"[] ar"+fmt.Sprint(k)+" = null;")
+				imps = append(imps, impLine{text: "org.lib." + nm, verdict: "keep", why: "used as array element type"})
+			case 15: // qualifier of a nested type
+				usage = append(usage, nm+".Entry ne"+fmt.Sprint(k)+" = null;")
+				imps = append(imps, impLine{text: "org.lib." + nm, verdict: "keep", why: "used as qualifier of a nested type"})
 			case 9: // qualifier of a method reference
 				usage = append(usage, "Runnable mr"+fmt.Sprint(k)+" = "+nm+"::run;")
 				imps = append(imps, impLine{text: "org.lib." + nm, verdict: "keep", why: "used as qualifier of a method reference"})
